@@ -55,7 +55,9 @@ def graph_conformance(rnd, rounds=300):
         model = SymDiGraph(ids, fresh=False)
         for step in range(14):
             u, v = rnd.choice(ids + [9]), rnd.choice(ids + [9])
-            op = rnd.choice(["add_node", "add_edge", "remove_node", "remove_edge", "has_node", "has_edge", "succ",
+            w = rnd.choice(ids)
+            op = rnd.choice(["add_node", "add_edge", "remove_node", "remove_edge", "remove_nodes_from",
+                             "remove_edges_from", "add_nodes_from", "add_edges_from", "has_node", "has_edge", "succ",
                              "pred", "in_deg", "out_deg", "in_edges", "out_edges", "nodes", "edges", "len", "attr",
                              "contains", "edge_attr", "out_edges_list", "number", "degs"])
             calls = {
@@ -63,6 +65,10 @@ def graph_conformance(rnd, rounds=300):
                 "add_edge": lambda g: g.add_edge(u, v, w=step) if 9 not in (u, v) else None,
                 "remove_node": lambda g: g.remove_node(u),
                 "remove_edge": lambda g: g.remove_edge(u, v),
+                "remove_nodes_from": lambda g: g.remove_nodes_from([u, w]),
+                "remove_edges_from": lambda g: g.remove_edges_from([(u, v), (w, u)]),
+                "add_nodes_from": lambda g: g.add_nodes_from([w, (u, {"t": step})] if u != 9 else [w], k=1),
+                "add_edges_from": lambda g: g.add_edges_from([(w, u), (u, v, {"w": step})] if 9 not in (u, v) else []),
                 "has_node": lambda g: bool(g.has_node(u)),
                 "has_edge": lambda g: bool(g.has_edge(u, v)),
                 "succ": lambda g: list(g.successors(u)),  # iteration order = insertion order
